@@ -347,7 +347,9 @@ class Cli:
                 for name, pth in paths.items():
                     a = a.replace("@FILE:%s@" % name, pth)
                 argv.append(a)
-            env = {"PATH": "/usr/bin:/bin", "RUST_BACKTRACE": "0", "HOME": d}
+            # MALLOC_ARENA_MAX: glibc reserves 64 MiB of address space per thread arena; at -j 64 that alone reaches the 4 GiB
+            # address-space guard below and thread creation then fails with EAGAIN (seen once in 4000 runs). Allocator tuning only.
+            env = {"PATH": "/usr/bin:/bin", "RUST_BACKTRACE": "0", "HOME": d, "MALLOC_ARENA_MAX": "4"}
             # ambient environment chosen from the command line itself (so a replay reproduces it)
             env.update(ambient_env(int(hashlib.sha256(repr(spec.get("argv")).encode()).hexdigest()[:6], 16)))
             env.update(self.extra_env)
@@ -458,6 +460,10 @@ class Cli:
                         so, se = p.communicate()
                         obs["timeout"] = "still computing after %ds wall-clock" % timeout
                         break
+            if obs.get("exit") == 101 and b"failed to spawn thread" in se and (b"code: 11" in se or b"Resource temporarily unavailable" in se):
+                # the operating system refused to create a thread (EAGAIN: task / memory limits of an overloaded machine): an
+                # environment condition, not an input - the case is not judged
+                obs["skipped"] = "environment: thread creation refused by the OS (EAGAIN)"
             obs["stdout_hex"] = so.hex() if len(so) <= (1 << 22) else None
             obs["stdout_len"] = len(so)
             obs["stdout_sha"] = hashlib.sha256(so).hexdigest()
